@@ -105,7 +105,7 @@ def r2(c):
     oks = len(san) == 1 and len(tf) == 1 and q.dominated_by_any(f, some, ('b', san[0][0])) and q.dominated_by_any(f, q.outcomes(f, tf[0]).get('success', []), ('b', san[0][0]))
     if oks:
         a0 = q.sem(f, tf[0].args[0])
-        oks = q.sem_is_name(f, a0, 'server_subject_name') and ':Some' in ''.join(a0.proj)
+        oks = q.sem_is_name(f, a0, 'server_subject_name') and q.has_success(a0.proj)
     c.ob('full_pki/some-verifies', oks, 'with a server name, SanOrCommonName is selected only after the *checked* ServerName::try_from of that name (an invalid name is an error, not "no verification")',
          '%d try_from, %d SanOrCommonName' % (len(tf), len(san)), loc_of(f))
     au = one(f.calls('sfio_rustls_config::client::authority'), 'client::authority')
@@ -236,7 +236,7 @@ def r4(c):
     c.ob('server/session-after-handle', len(starts) == 2 and all(q.dominated_by_any(rs, okedge, x.node) for x in starts), 'SessionTask::new / run are dominated by the Ok edge of the awaited connection handler', '', hd.loc())
     st = one(rs.calls('rodbus::server::task::SessionTask::new'), 'SessionTask::new')
     au = q.sem(rs, st.args[1])
-    c.ob('server/auth-of-handshake', au.kind == 'call' and au.cs is hd and ':Ok' in ''.join(au.proj), 'the session uses the AuthorizationType the handshake produced', repr(au), st.loc())
+    c.ob('server/auth-of-handshake', au.kind == 'call' and au.cs is hd and q.has_success(au.proj), 'the session uses the AuthorizationType the handshake produced', repr(au), st.loc())
     run = one(rs.calls('rodbus::server::task::SessionTask::run'), 'SessionTask::run')
     ph = rs.op_closure(run.args[1])
     c.ob('server/phys-of-handshake', any(y[0] == 'call' and y[2] == hd.block for y in ph), 'the session runs on the physical layer the handshake produced', '', run.loc())
